@@ -74,6 +74,10 @@ def mkOpnd (chk : Bool) : Opnd → Opnd
   | o => o
 
 def runQ (chk : Bool) (toks : List String) : M Unit := do
+  -- `q unw <op> …`: the same operation, executed by the harness inside a destructor during unwinding — the model does not care where
+  let toks := match toks with
+    | "unw" :: rest => (match rest with | "unw" :: _ => [] | _ => rest)
+    | _ => toks
   match toks with
   | [op, a, b] =>
     let base := if op.endsWith "as" && op.length == 5 then (op.take 3).toString else op
